@@ -18,6 +18,7 @@ type simHooks struct {
 	onFault       func(owner any, name string, hit int64) error
 	onFaultOn     func(owner any, name string, subject any, hit int64) error
 	onPointAlways func(name string)
+	onGo          func(name string)
 	sched         *Sched
 }
 
@@ -48,6 +49,7 @@ func ResetHooks(sc *Scenario) {
 	hooks.onFault = nil
 	hooks.onFaultOn = nil
 	hooks.onPointAlways = nil
+	hooks.onGo = nil
 	hooks.sched = nil
 }
 
@@ -117,6 +119,9 @@ func (h *simHooks) FaultOn(owner any, name string, subject any) error {
 
 func (h *simHooks) Go(owner any, name string) {
 	h.count("go:" + name)
+	if f := h.onGo; f != nil {
+		f(name)
+	}
 	if s := h.sched; s != nil {
 		s.goStart(owner, name)
 	}
